@@ -4,7 +4,7 @@ L  labels      column names / secondary entries that are None, falsy, fresh equa
                integers that are NOT the column positions (1-based, shifted, permuted, sampled, huge)
 I  containers  matrix / rows / columns / secondary as tuples, bytes, bytearrays, ranges, strings (all `Sequence`s)
 S  sizes       structured instances whose covers are known by construction, crossing 17 / 65 / 257 / 801 / 1025 / 2049 /
-               65536 / 65537 / 10^5 (10^6 thorough) rows, cover depth 17 .. 900, search trees > 10^5 nodes
+               65536 / 65537 / 10^5 / 2^20+1 (2^21+1 thorough) rows, cover depth 17 .. 2049 (5000 thorough), search trees > 10^5 nodes
 M  magnitudes  truthy entries and numeric options at 2^31, 2^53+1, 10^18, 2^64, negative huge, default+-1
 O  options     sweeps of max_iter over 0..N+2 (N = iterations of the uncut run) and of max_solutions over -2..k+2
 A  aliasing    one set of argument objects passed to consecutive calls with different options, in both orders; rows that
@@ -300,9 +300,7 @@ def size_instances(tier):
         inst.append(tall(n, 2, [1], True, 3))
     inst.append(tall(65537, 1, None, True, None))
     inst.append(tall(131073, 2, None, False, None))
-    if tier == "thorough":
-        inst.append(tall(262145, 1, None, True, 2))
-        inst.append(tall(10**6 + 1, 1, None, False, None))
+    inst.append(tall(2**20 + 1, 1, None, False, None))
 
     def two_cols(n):
         def build():
@@ -344,32 +342,18 @@ def size_instances(tier):
             return None if o["status"] == st else f"status {o['status']}, expected {st}"
         return (name or f"{len(widths)} blocks, {dup[:4]}.. rows per block, find_all={fa} max_solutions={ms}", build, check)
 
-    for d in (17, 65, 257, 801, 900):  # cover depth d (recursion depth d+1)
+    for d in (17, 65, 257, 801, 900, 1025, 2049):  # cover depth d (recursion depth d+1; > 1000 needed a fix in /repo)
         inst.append(blocks([1] * d, [1] * d, name=f"identity {d}: one cover of {d} rows"))
         inst.append(blocks([1] * d, [2] + [1] * (d - 2) + [3], name=f"identity {d} with 2x3 duplicated rows: 6 covers"))
     inst.append(blocks([2, 1, 3] * 22, [1] * 66, fa=False, name="66 blocks of widths 2,1,3 (198 columns): one cover"))
     inst.append(blocks([1] * 17, [2] * 17, name="17 blocks x 2 rows: 2^17 covers (search tree > 10^5 nodes)"))
     inst.append(blocks([1] * 40, [2] * 40, fa=True, ms=1000, name="40 blocks x 2 rows, max_solutions=1000 of 2^40"))
     inst.append(blocks([1] * 3, [40, 41, 43], name="3 blocks with 40,41,43 rows: 70520 covers"))
+    if tier == "thorough":
+        inst.append(tall(262145, 1, None, True, 2))
+        inst.append(tall(2**21 + 1, 1, None, False, None))
+        inst.append(blocks([1] * 5000, [1] * 5000, fa=False, name="identity 5000: one cover of 5000 rows"))
     return inst
-
-
-RECURSION_ID = "C07-recursion-depth"
-
-
-def deep_instances():
-    """Cover depth beyond Python's default recursion limit: a finding on the unchanged code (RecursionError)."""
-    out = []
-    for d in (1025, 2049):
-        def build(d=d):
-            return _blocks([1] * d, [1] * d)[0], {"find_all": True}
-
-        def check(o, d=d):
-            if o["kind"] == "done" and o["status"] == "OPTIMAL" and [sorted(s) for s in o["sels"]] == [list(range(d))]:
-                return None
-            return f"identity {d}: expected the one cover 0..{d - 1}, got {str(o)[:120]}"
-        out.append((f"identity {d}: one cover of {d} rows", build, check))
-    return out
 
 
 # ---------------------------------------------------------------- H: instrumented reference port, events
